@@ -201,15 +201,29 @@ pub fn fals_c18(rng: &mut Rng, thorough: bool, release: bool) -> Fals {
         }
     }
     // randomly initialised tensors (clock seeded: any of 10^6 seeds) have the requested shape and range
+    // every rank; dimensions from 0 (an empty tensor of the requested shape) to beyond 2^10
+    let mut shapes: Vec<Shape> = vec![
+        Shape::Single(0), Shape::Double(0, 3), Shape::Double(3, 0), Shape::Double(0, 0), Shape::Triple(0, 2, 2), Shape::Triple(2, 0, 2),
+        Shape::Triple(2, 2, 0), Shape::Quadruple(0, 1, 2, 2), Shape::Quadruple(2, 0, 2, 2), Shape::Quadruple(2, 1, 0, 2), Shape::Quadruple(2, 1, 2, 0),
+        Shape::Single(1100), Shape::Double(1030, 2), Shape::Triple(3, 37, 37), Shape::Quadruple(2, 2, 33, 17),
+    ];
     for _ in 0..(if thorough { 400 } else { 60 }) {
-        let s = match rng.below(4) {
-            0 => Shape::Single(rng.range(1, 30)),
-            1 => Shape::Double(rng.range(1, 6), rng.range(1, 6)),
-            2 => Shape::Triple(rng.range(1, 4), rng.range(1, 5), rng.range(1, 5)),
+        shapes.push(match rng.below(4) {
+            0 => Shape::Single(rng.range(0, 30)),
+            1 => Shape::Double(rng.range(0, 6), rng.range(0, 6)),
+            2 => Shape::Triple(rng.range(0, 4), rng.range(1, 5), rng.range(1, 5)),
             _ => Shape::Quadruple(rng.range(1, 3), rng.range(1, 3), rng.range(1, 4), rng.range(1, 4)),
-        };
+        });
+    }
+    for s in shapes {
         let (lo, hi) = *rng.pick(&[(0.0f32, 1.0f32), (-1.0, 1.0), (2.0, 2.5), (-3.0, -3.0)]);
-        let t = Tensor::random(s.clone(), lo, hi);
+        let t = match catch_unwind(AssertUnwindSafe(|| Tensor::random(s.clone(), lo, hi))) {
+            Ok(t) => t,
+            Err(_) => {
+                f.check("random-tensor", false, "Tensor::random panicked", || format!("shape {:?} range [{}, {}]", s, lo, hi));
+                continue;
+            }
+        };
         let v = flat_of(&t);
         // the nested lengths must be the requested dimensions, level by level
         let dims_ok = {
